@@ -8,6 +8,9 @@
 #include "harness/typed_load.hpp"
 #include "msgpack/msgpack_readers.h"
 #include "csv/csv_readers.h"
+#include "bitserializer/types/std/optional.h"
+#include "bitserializer/types/std/memory.h"
+#include "bitserializer/types/std/atomic.h"
 
 using namespace sv; using ref::Val; using tl::archName;
 
@@ -98,8 +101,59 @@ static std::string reqClass(const Req& r) {   // for signatures: no key names
 	return std::string("Get:") + kname(t.k);
 }
 
+// ---- typed scenario: optional / smart pointers / atomic members whose key is present, absent or null ----------------
+// The bool returned by each Serialize() call is recorded (it is what validators see).
+struct Holder {
+	std::optional<int32_t> o; std::unique_ptr<int32_t> u; std::shared_ptr<int32_t> s; std::atomic<int32_t> a{0}; int32_t i = 0;
+	bool ro = false, ru = false, rs = false, ra = false, ri = false;
+	template <class A> void Serialize(A& ar) {
+		if constexpr (A::IsLoading()) {
+			ro = BitSerializer::Serialize(ar, std::string("o"), o); ru = BitSerializer::Serialize(ar, std::string("u"), u); rs = BitSerializer::Serialize(ar, std::string("s"), s);
+			ra = BitSerializer::Serialize(ar, std::string("a"), a); ri = BitSerializer::Serialize(ar, std::string("i"), i);
+		}
+	}
+};
+template <class TA> static lib::Out loadHolder(Holder& h, const std::string& bytes, bool stream) {
+	return lib::guard([&] { if (stream) { std::istringstream is(bytes); BitSerializer::LoadObject<TA>(h, is); } else BitSerializer::LoadObject<TA>(h, bytes); });
+}
+static void typedScenario(bsx::Ctx& c) {
+	int arch = c.choose(4, "archive");
+	// per key: 0 = present (value 11..15), 1 = absent, 2 = null (where the format has one)
+	int st[5]; static const char* keys[5] = {"o", "u", "s", "a", "i"};
+	for (int k = 0; k < 5; ++k) st[k] = c.choose(3, "key_state");
+	int prior = c.choose(2, "prior");   // 0: targets empty/zero, 1: targets engaged with canary 77
+	bool stream = c.flag("stream");
+	Val obj = Val::map(); std::string cls;
+	for (int k = 0; k < 5; ++k) { if (st[k] == 0) obj.m.emplace_back(Val::str(keys[k]), Val::integer(11 + k)); else if (st[k] == 2) obj.m.emplace_back(Val::str(keys[k]), Val::nil()); cls += st[k] == 0 ? "P" : st[k] == 1 ? "A" : "N"; }
+	obj.m.emplace_back(Val::str("zz"), Val::integer(1));   // never an empty object
+	Val root = arch == tl::Csv ? Val::arr({obj}) : obj;
+	if (!tl::canCarry(arch, root)) { c.outcome("n/a:format_cannot_carry"); return; }
+	if (arch == tl::Csv) { c.outcome("n/a:csv_rows_need_a_vector_target"); return; }
+	std::string bytes = tl::emit(arch, root);
+	std::string sigbase = std::string("C03/typed/") + archName(arch) + (stream ? "/stream" : "/mem") + (prior ? "/prior=engaged" : "/prior=empty");
+	c.describe(sigbase, "keys[o,u,s,a,i]=" + cls + " doc=" + (arch == tl::MsgPack ? bsx::hex(bytes) : bytes));
+	Holder h; if (prior) { h.o = 77; h.u = std::make_unique<int32_t>(77); h.s = std::make_shared<int32_t>(77); h.a = 77; h.i = 77; }
+	lib::Out out = arch == tl::MsgPack ? loadHolder<tl::MP>(h, bytes, stream) : arch == tl::Json ? loadHolder<tl::JS>(h, bytes, stream) : loadHolder<tl::XM>(h, bytes, stream);
+	c.outcome(out.cls); c.nontrivial(sigbase + cls); c.transition(5); c.state(bsx::fnv(sigbase + cls));
+	if (cls == "PANPA" && !stream) c.sample(sigbase + " keys=" + cls + " -> " + out.cls);
+	if (!out.ok()) { c.violation(sigbase + "/out=" + out.cls, "well-formed document but the load threw " + out.cls + ": " + out.what + " keys=" + cls); return; }
+	const int base = prior ? 77 : 0;
+	auto chk = [&](int k, const char* type, bool result, bool has, int value) {
+		std::string s2 = sigbase + "/member=" + type + "/key=" + (st[k] == 0 ? "present" : st[k] == 1 ? "absent" : "null");
+		if (st[k] == 0) { if (!result || !has || value != 11 + k) c.violation(s2 + "/out=present_value_not_delivered", std::string(type) + ": result=" + (result ? "true" : "false") + " has=" + (has ? "yes" : "no") + " value=" + std::to_string(value) + " expected " + std::to_string(11 + k) + " keys=" + cls); return; }
+		if (result) c.violation(s2 + "/out=reported_loaded", std::string(type) + ": the key is " + (st[k] == 1 ? "absent" : "null") + " but Serialize() returned true (value=" + std::to_string(value) + ") keys=" + cls);
+		// not loaded: an optional / smart pointer is reset or left as it was; a plain or atomic integer keeps its previous value
+		bool isHolder = k <= 2;
+		if (isHolder) { if (has && value != base) c.violation(s2 + "/out=target_changed", std::string(type) + " holds " + std::to_string(value) + " after a request that was not loaded (previous " + std::to_string(base) + ") keys=" + cls); }
+		else if (value != base) c.violation(s2 + "/out=target_changed", std::string(type) + " holds " + std::to_string(value) + " after a request that was not loaded (previous " + std::to_string(base) + ") keys=" + cls);
+	};
+	chk(0, "optional", h.ro, h.o.has_value(), h.o.value_or(0)); chk(1, "unique_ptr", h.ru, h.u != nullptr, h.u ? *h.u : 0); chk(2, "shared_ptr", h.rs, h.s != nullptr, h.s ? *h.s : 0);
+	chk(3, "atomic", h.ra, true, h.a.load()); chk(4, "int", h.ri, true, h.i);
+}
+
 static void body(bsx::Ctx& c) {
 	const bool thorough = c.tier == "thorough";
+	if (c.choose(2, "scenario") == 1) { typedScenario(c); return; }
 	static std::vector<Doc> D = docs(thorough);
 	const int Lmax = thorough ? 4 : 3;
 	int arch = c.choose(4, "archive");
@@ -176,7 +230,7 @@ static void body(bsx::Ctx& c) {
 }
 
 int main(int argc, char** argv) {
-	bsx::Config cfg; cfg.part_depth = 4; cfg.max_dev = 0;
+	bsx::Config cfg; cfg.part_depth = 5; cfg.max_dev = 0;
 	bsx::Engine e("C03", body, cfg);
 	return e.main(argc, argv);
 }
